@@ -109,6 +109,8 @@ def run_general(ctx, fields, what, n_fake, n_real, gen=None, rule="", names_mix=
                      sample=(it % 37 == 0), packed=STORAGE[it % len(STORAGE)] if it >= n_fake else False, pack_refs=(rng.random() < 0.3))
             if it % 3 == 0:
                 twin_cases(eng, res, sc, rng, fields, what)
+            if it % 4 == 1:
+                whitespace_twin_cases(eng, res, sc, rng, fields, what)
         tiny_cases(eng, res, fields, what, rng)
         if extra_cases is not None:
             extra_cases(eng, res, fields, what, rng)
@@ -178,6 +180,37 @@ def twin_cases(eng, res, sc, rng, fields, what):
         one_case(eng, res, sc2, a2, o2, [], sc2.enum_random(w3, rng), fields, what + ": twin references, the first one not selected")
 
 
+def whitespace_twin_cases(eng, res, sc, rng, fields, what):
+    """A reference whose name is another reference's name plus a trailing Unicode white-space character (legal for git),
+    holding a commit, tree and blob seen nowhere else: rules that name the shorter reference exactly (a prefix rule — which
+    matches at a component boundary only — or an anchored regexp) select one and not the other."""
+    if not sc.refs:
+        return
+    name_a, x = rng.choice(sorted(sc.refs))
+    try:
+        name_a.decode("utf-8")
+    except UnicodeDecodeError:
+        return
+    ws = rng.choice([b"\xc2\xa0", b"\xc2\x85", b"\xe3\x80\x80", b"\xe2\x80\x83", b"\xe2\x80\xa8", b"\xe1\x9a\x80"])
+    twin = name_a + ws
+    if any(n == twin or n.startswith(twin + b"/") or n.startswith(name_a + b"/") for n, _ in sc.refs):
+        return
+    sc2 = S.Scenario()
+    sc2.objects = [dict(o) for o in sc.objects]
+    lone_b = sc2.add({"kind": "blob", "data": b"only below the longer name\n" * 40})
+    lone_t = sc2.add({"kind": "tree", "entries": [(0o100644, b"lonely-%d" % i, lone_b) for i in range(23)]})
+    commits = [i for i, o in enumerate(sc2.objects) if o["kind"] == "commit"]
+    lone_c = sc2.add({"kind": "commit", "tree": lone_t, "parents": commits[-1:], "date": 1600000000, "msg": b"w" * 2500 + b"\n"})
+    sc2.refs = list(sc.refs) + [(twin, lone_c)]
+    sc2 = sc2.normalize()
+    a = name_a.decode("latin1")
+    for a2, o2 in ((["--include", a], [(True, "prefix", name_a)]),
+                   (["--exclude", a], [(False, "prefix", name_a)]),
+                   (["--include", twin.decode("utf-8")], [(True, "prefix", twin)])):
+        w3 = [r["obj"] for r in SC.build_roots(sc2, o2, []) if r["walk"]]
+        one_case(eng, res, sc2, a2, o2, [], sc2.enum_random(w3, rng), fields, what + ": a reference and its twin with trailing Unicode white space")
+
+
 def replace_spelling_cases(eng, res, fields, what):
     """ROOT arguments whose resolution reads objects (R~1, R^, R:, R^{tree}, R:dir, R:dir/sub), in a repository where the
     objects on the way carry replace references: the stored objects are the ones named and measured."""
@@ -232,6 +265,43 @@ def tiny_scenarios():
             yield "shortest %s entry as the %s entry of the widest tree" % (kind, pos), s.compute()
 
 
+def sibling_scenarios():
+    """An entry named X of each kind next to siblings named X + one byte that sorts below or above '/' (git orders a directory as
+    if its name ended in '/', every other kind — gitlinks included — by the bare name), and gitlinks that carry the id of an
+    object of this very repository: a sibling directory read before them, a blob, a tree two levels up."""
+    kinds = [(0o40000, "dir"), (0o100644, "file"), (0o120000, "link"), (0o160000, "sub")]
+    for mode, kind in kinds:
+        for tail in (b".txt", b"-notes", b" ", b"\x01", b"0", b"/".replace(b"/", b"~")):
+            for sib_mode in (0o100644, 0o40000, 0o160000):
+                s = S.Scenario()
+                b = s.add({"kind": "blob", "data": b"x"})
+                sub = s.add({"kind": "tree", "entries": [(0o100644, b"f", b)]})
+                sub2 = s.add({"kind": "tree", "entries": [(0o100644, b"g", b), (0o100644, b"h", b)]})
+                ref = {"dir": sub, "sub": bytes(range(1, 21))}.get(kind, b)
+                sref = {0o40000: sub2, 0o160000: bytes(range(2, 22))}.get(sib_mode, b)
+                ents = [(mode, b"sub", ref), (sib_mode, b"sub" + tail, sref)]
+                ents.sort(key=lambda e: e[1] + (b"/" if S.entry_kind(e[0]) == "tree" else b""))
+                top = s.add({"kind": "tree", "entries": ents})
+                c = s.add({"kind": "commit", "tree": top, "parents": []})
+                s.refs.append((b"refs/heads/main", c))
+                yield "%s `sub` next to a %s `sub%s`" % (kind, S.entry_kind(sib_mode), tail.decode("latin1")), s.compute()
+    for target in ("sibling directory", "blob", "directory two levels up"):
+        s = S.Scenario()
+        b = s.add({"kind": "blob", "data": b"x"})
+        a = s.add({"kind": "tree", "entries": [(0o100644, b"f", b), (0o100644, b"g", b)]})
+        tid = {"sibling directory": a, "blob": b, "directory two levels up": a}[target]
+        links = [(0o160000, b"s%d" % i, tid) for i in range(10)]
+        if target == "directory two levels up":
+            inner = s.add({"kind": "tree", "entries": links})
+            mid = s.add({"kind": "tree", "entries": [(0o40000, b"m", inner)]})
+            top = s.add({"kind": "tree", "entries": [(0o40000, b"a", a), (0o40000, b"z", mid)]})
+        else:
+            top = s.add({"kind": "tree", "entries": [(0o40000, b"a", a)] + links})
+        c = s.add({"kind": "commit", "tree": top, "parents": []})
+        s.refs.append((b"refs/heads/main", c))
+        yield "ten gitlinks carrying the id of a %s" % target, s.compute()
+
+
 def tiny_cases(eng, res, fields, what, rng):
     n = 0
     for label, sc in tiny_scenarios():
@@ -241,6 +311,12 @@ def tiny_cases(eng, res, fields, what, rng):
                      real=(style == "gitlike" and n % 3 == 0))
             n += 1
     res.coverage_extra["shortest_entry_cases"] = n
+    m = 0
+    for label, sc in sibling_scenarios():
+        roots = [x for _, x in sorted(sc.refs)]
+        one_case(eng, res, sc, [], [], [], sc.enum_random(roots, rng, style="gitlike" if m % 2 else "referent_first"), fields, "%s: %s" % (what, label), real=(m % 5 == 0))
+        m += 1
+    res.coverage_extra["sibling_order_and_gitlink_id_cases"] = m
 
 
 def wide_scenario(n, shared=False):
@@ -373,7 +449,7 @@ def scale_cases(eng, res, fields, what, quick, rng):
     # directory nesting and tag chains beyond 4096 levels (legal for git 2.39), the deep tree shared by two commits — the root
     # tree of one, the directory x of the other — so that it is delivered before or after a tree that contains it depending on
     # which commit comes first: judged by closed form
-    for deep in ([4097] if quick else [1000, 4095, 4096, 4097, 5000, 9000]):
+    for deep in ([4097, 12000] if quick else [1000, 4095, 4096, 4097, 5000, 9000, 10001, 10002, 12000, 30000, 65537]):
         s = S.Scenario()
         b = s.add({"kind": "blob", "data": b"x"})
         t = s.add({"kind": "tree", "entries": [(0o100644, b"f", b)]})
